@@ -27,6 +27,8 @@ LOOPS = {
     "reccb": "mixed rcb(mixed x) { return map_array(({ 1 }), \"rcb\", this_object()); }\nint body() { rcb(1); return 1; }",
     "recother": "int rco(int d) { return this_object()->rco(d + 1) + 1; }\nint body() { return rco(0); }",
     "bigargs": "int many(mixed *x...) { return sizeof(x); }\nint body() { mixed *a = allocate(1500); return many(a...); }",
+    "bigcallother": "int many(mixed *x...) { return sizeof(x); }\nint body() { return call_other(this_object(), ({ \"many\" }) + allocate(6000)); }",
+    "bigbound": "int many(mixed *x...) { return sizeof(x); }\nint body() { mixed *a = allocate(6000); function f = (: many, a... :); return evaluate(f); }",
     "foreach": "int body() { int n; mixed x; foreach (x in allocate(90)) n++; return n; }",
 }
 
@@ -82,6 +84,8 @@ CTORS = {
     "implode": "return implode(map_array(allocate(90), (: \"0123456789\" :)), repeat_string(\"-\", (n - 900) / 89 + 1));",
     "replace_string": "return replace_string(repeat_string(\"x\", n / 2), \"x\", \"xy\");",
     "upper": "return upper_case(repeat_string(\"x\", n));",
+    "replace_skip": "return replace_string(repeat_string(\"ab-----\", n / 13 + 1), \"ab\", \"abcdefgh\");",
+    "replace_skip2": "return replace_string(repeat_string(\"-----ab\", n / 13 + 1), \"ab\", \"abcdefgh\");",
     "unique_mapping": "a = allocate(n); for (v = 0; v < n; v++) a[v] = v; return unique_mapping(a, (: $1 :));",
     "str_range_assign": "s = repeat_string(\"a\", n / 2); s[0..0] = repeat_string(\"b\", n - n / 2 + 1); return s;",
     "str_range_assign_v": "s = repeat_string(\"a\", n / 2); v = (s[0..0] = repeat_string(\"b\", n - n / 2 + 1)); return s;",
@@ -95,7 +99,7 @@ KIND = {"arr_addeq_self": "array", "arr_add_self": "array", "arr_doubling": "arr
         "allocate_mapping": "mapping", "map_add": "mapping", "map_addeq": "mapping", "map_insert": "mapping", "map_mapping": "mapping",
         "allocate_buffer": "buffer", "buf_add": "buffer",
         "str_add": "string", "str_addeq": "string", "str_intadd": "string", "repeat_string": "string", "sprintf_pad": "string",
-        "implode": "string", "replace_string": "string", "upper": "string", "unique_mapping": "mapping", "str_range_assign": "string",
+        "implode": "string", "replace_string": "string", "upper": "string", "replace_skip": "string", "replace_skip2": "string", "unique_mapping": "mapping", "str_range_assign": "string",
         "str_range_assign_v": "string", "str_range_insert": "string", "explode_chars": "array", "filter_mapping": "mapping"}
 
 
